@@ -90,7 +90,9 @@ func verifHarness_C07_twin() {
 		a, pa, alma := rOff.QuickMatch(m, p)
 		b, pb, almb := rOn.QuickMatch(m, p)
 		verifAssert(verifSameAnswer(a, pa, alma, b, pb, almb), "caching router answers exactly like the non-caching twin")
-		verifAssert(rOn.cachedRoutes.Len() <= capacity, "cache never exceeds its capacity")
+		if verifCacheLen != nil {
+			verifAssert(verifCacheLen(rOn) <= capacity, "cache never exceeds its capacity")
+		}
 		if a != nil && a != b {
 			hits++
 		}
